@@ -53,6 +53,7 @@ func createLockFile(name string, perm os.FileMode) (LockFile, bool, error) {
 			acquiredExisting = true
 		}
 		// Mark the lock file as acquired.
+		verifYield(name, "lock.mark")
 		if _, err := f.WriteAt([]byte{1}, 0); err != nil {
 			_ = f.Close()
 			return nil, false, err
